@@ -78,6 +78,17 @@ Theorem linear_exactness : forall lam t0 hs h m0,
 Proof. exact linear_exact. Qed.
 Print Assumptions linear_exactness.
 
+(* for 0 <= lam h <= 1 no stage state (and not the result) is negative: the "cannot deliver more than it has"
+   clamp of calc_final_kinetic_reaction is inactive, so the unclamped model above is what the code computes *)
+Theorem linear_stage_states_nonnegative : forall lam t0 hs h m0, 0 <= m0 -> 0 <= lam * h -> lam * h <= 1 ->
+  let f := fun (_ : Q) m => lam * m in
+  let a1 := k1 CK f t0 hs h m0 in let a2 := k2 CK f t0 hs h m0 in let a3 := k3 CK f t0 hs h m0 in
+  let a4 := k4 CK f t0 hs h m0 in let a5 := k5 CK f t0 hs h m0 in let a6 := k6 CK f t0 hs h m0 in
+  0 <= m0 - s2 CK a1 0 0 0 0 0 /\ 0 <= m0 - s3 CK a1 a2 0 0 0 0 /\ 0 <= m0 - s4 CK a1 a2 a3 0 0 0 /\
+  0 <= m0 - s5 CK a1 a2 a3 a4 0 0 /\ 0 <= m0 - s6 CK a1 a2 a3 a4 a5 0 /\ 0 <= m0 - res CK a1 a2 a3 a4 a5 a6.
+Proof. exact linear_states_nonneg. Qed.
+Print Assumptions linear_stage_states_nonnegative.
+
 Theorem kappa6_is_1_800 : kappa6 CK == 1 # 800.
 Proof. exact kappa6_value. Qed.
 Print Assumptions kappa6_is_1_800.
@@ -88,6 +99,15 @@ Theorem linear_error_estimate : forall lam t0 hs h m0,
   step_est CK (fun _ m => lam * m) t0 hs h m0 == - m0 * (z*z*z*z*z) * ((277 # 1228800) + (277 # 1638400) * z).
 Proof. exact linear_est. Qed.
 Print Assumptions linear_error_estimate.
+
+(* accepted step => small local error, first-order decay: the result is within (2/3) z |estimate| of m0 * T6(z), T6 the
+   degree-6 Taylor polynomial of exp(-z); the controller accepts only |estimate| <= tol, so for z = lam h <= 1 the step is within
+   (2/3) tol of m0*T6(z)   (|exp(-z) - T6(z)| <= z^7/5040: classical alternating-series remainder, not re-proved) *)
+Theorem linear_local_error_vs_estimate : forall lam t0 hs h m0, 0 <= m0 -> 0 <= lam * h ->
+  let z := lam * h in
+  Qabs (step_m CK (fun _ m => lam * m) t0 hs h m0 - m0 * taylor6 z) <= (2#3) * z * Qabs (step_est CK (fun _ m => lam * m) t0 hs h m0).
+Proof. exact linear_local_error_bounded_by_estimate. Qed.
+Print Assumptions linear_local_error_vs_estimate.
 
 (* rate = polynomial of degree <= 4 in TOTAL_TIME: integrated exactly (uses the rate_sim_time offsets) *)
 Theorem quadrature_exactness : forall a0 a1 a2 a3 a4 t0 hs h m0,
